@@ -297,6 +297,7 @@ def draw_setup(
         base = zm * float(rng.uniform(0.12, 0.9))
         dx, dy = base * a, base * b
         xmax, ymax = dx * nx, dy * ny
+        dx, dy = xmax / nx, ymax / ny  # exactly the solver's own arithmetic (pad widths are int(halo/dx))
         hc = str(rng.choice(list(halo_classes)))
         halo = draw_halo(rng, hc, dx, dy, a, b, base, xmax, ymax)
         heff = max(xmax, ymax) if halo is None else halo
